@@ -25,11 +25,12 @@ Open Scope Z_scope.
          in_range (integer_ity t) (i_addr i) = true /\
          gen_addr true it (integer_ity t) (i_path i) = Ok (i_addr i)
 
-   is proved for EVERY instance of EVERY tree (repeated blocks, block refs, refs that keep their target's address or
-   repeat included: no class is excluded any more) up to its last conjunct, which holds under the side condition
-   "internal type unsigned, or every step's (count-1)*|stride| fits the internal type": C13_accepted_all_fit and
-   C13_accepted_no_overflow.  Without the side condition the last conjunct is false of the faithful model AND of the real
-   generator (D3b, still open): C13_signed_product_refuted.  Nothing else is missing. *)
+   is proved as it stands: C13_accepted_no_overflow_full — EVERY instance of EVERY tree (repeated blocks, block refs, refs
+   that keep their target's address or repeat included), no side condition.  Since the repair of D3b
+   find_best_internal_address sizes the internal type not only for the addresses (the walk with `|_| true`) but also for
+   every object's address / offset, |stride|, count-1 and (count-1)*|stride| ([object_it_values]); the former side condition
+   [steps_product_ok] is now a theorem (C13_steps_product_ok_holds).  The defects D3, D3b, D3c, D4, D4b, D4c survive as
+   HISTORICAL theorems about the functions as they were. *)
 
 Definition ex_cfg (r c b : option integer) : config :=
   {| g_default_register_access := RW; g_default_field_access := RW; g_default_buffer_access := RW;
@@ -81,8 +82,8 @@ Proof. exact c13_accepted_all_fit. Qed.
 
 (* C13, second half: the internal type exists and contains every value on the way to every instance (base + ADDR and
    the block instance / object address of every step: [checkpoints]); and — internal type unsigned, or every step's
-   (count-1)*|stride| within the internal type (the D3b side condition) — the emitted arithmetic, overflow checks on,
-   yields exactly the address. *)
+   (count-1)*|stride| within the internal type (the former D3b side condition, see C13_steps_product_ok_holds below) — the
+   emitted arithmetic, overflow checks on, yields exactly the address.  Kept as the lemma the full theorem rests on. *)
 Theorem C13_accepted_no_overflow : forall fx fuel dev_name d fi l,
   accepted fx fuel dev_name d -> instances fi (d_objects d) = Ok l ->
   forall i, In i l ->
@@ -93,16 +94,50 @@ Theorem C13_accepted_no_overflow : forall fx fuel dev_name d fi l,
        gen_addr true it (integer_ity t) (i_path i) = Ok (i_addr i)).
 Proof. exact c13_accepted_no_overflow. Qed.
 
-(* D3b (OPEN): i8; register R @-100 repeat 3 x 100 is accepted; every final address (-100, 0, 100) fits, the internal
-   type is i8, and r(2) computes 2i8 * 100: overflow.  The side condition of C13_accepted_no_overflow is necessary. *)
+(* ... and the side condition always holds: for every step of every instance path (enclosing blocks / block refs and the
+   object itself) (count-1)*|stride| fits the internal type *)
+Theorem C13_steps_product_ok_holds : forall d fuel fi l i it,
+  instances fi (d_objects d) = Ok l -> In i l -> internal_type_at fuel d = Ok it ->
+  steps_product_ok it (i_path i).
+Proof. exact steps_product_ok_holds. Qed.
+
+(* C13 IN FULL *)
+Theorem C13_accepted_no_overflow_full : forall fx fuel dev_name d fi l,
+  accepted fx fuel dev_name d -> instances fi (d_objects d) = Ok l ->
+  forall i, In i l ->
+    exists t it, address_type_of (d_config d) (i_kind i) = Some t /\ internal_type_at fuel d = Ok it /\
+      in_range (integer_ity t) (i_addr i) = true /\
+      gen_addr true it (integer_ity t) (i_path i) = Ok (i_addr i).
+Proof. exact c13_accepted_no_overflow_full. Qed.
+
+(* the cast `index as IT` of every repeated step is exact as well (index <= count-1, which the internal type contains) *)
+Theorem C13_index_casts_exact : forall d fuel fi l i it,
+  instances fi (d_objects d) = Ok l -> In i l -> internal_type_at fuel d = Ok it ->
+  Forall (fun s => match s_rep s with Some _ => wrap it (s_idx s) = s_idx s | None => True end) (i_path i).
+Proof. exact index_casts_exact. Qed.
+
+(* the literals the accessors write out in the internal type — the address / offset and |stride| of every method of
+   every lowered block — are representable in it, and so are count-1 and (count-1)*|stride| (used by Emit.v / C19) *)
+Theorem C13_internal_type_covers_method_literals : forall fx fl dev_name d bls it,
+  lower fx fl dev_name (d_objects d) = Ok bls -> internal_type d = Ok it ->
+  forall b m, In b bls -> In m (b_methods b) ->
+    in_range it (m_address m) = true /\
+    forall r, m_repeat m = Some r ->
+      in_range it (Z.abs (r_stride r)) = true /\ in_range it (Z.max (r_count r - 1) 0) = true /\
+      in_range it (Z.max (r_count r - 1) 0 * Z.abs (r_stride r)) = true.
+Proof. exact internal_type_covers_method_literals. Qed.
+
+(* D3b (repaired) — HISTORICAL: i8; register R @-100 repeat 3 x 100 is accepted; every final address (-100, 0, 100) fits;
+   the internal type sized for the addresses only ([internal_type_walk_only_at]: find_best_internal_address before the
+   repair) was i8, and r(2) computed 2i8 * 100: overflow. *)
 Definition d3b : device :=
   {| d_config := ex_cfg (Some II8) None None;
      d_objects := [ex_reg "R" (-100) (Some {| r_count := 3; r_stride := 100 |})] |}.
 
-Theorem C13_signed_product_refuted :
+Theorem C13_historical_D3b_signed_product :
   exists d l i, accepted false 10 "Dev" d /\
     instances 10 (d_objects d) = Ok l /\ forallb (fun j => in_range i8 (i_addr j)) l = true /\ In i l /\
-    i_addr i = 100 /\ internal_type_at 10 d = Ok i8 /\
+    i_addr i = 100 /\ internal_type_walk_only_at 10 d = Ok i8 /\
     gen_addr true i8 i8 (i_path i) = Fail Overflow /\ gen_addr false i8 i8 (i_path i) = Ok 100 /\
     ~ steps_product_ok i8 (i_path i).
 Proof.
@@ -111,6 +146,30 @@ Proof.
   split; [vm_compute; reflexivity|].
   split; [right; right; left; reflexivity|]. vm_compute. repeat split; try reflexivity.
   intros H. inversion H as [|? ? Hp _]; subst. apply Hp. reflexivity.
+Qed.
+
+(* now the internal type is i16 (200 = 2 * 100 has to fit) and r(0), r(1), r(2) compute -100, 0, 100 without overflow *)
+Example C13_D3b_now_exact :
+  accepted false 10 "Dev" d3b /\ internal_type_at 10 d3b = Ok {| signed := true; bits := 16 |} /\
+  exists l, instances 10 (d_objects d3b) = Ok l /\
+    map (fun i => gen_addr true {| signed := true; bits := 16 |} i8 (i_path i)) l = [Ok (-100); Ok 0; Ok 100].
+Proof.
+  split; [vm_compute; reflexivity|]. split; [vm_compute; reflexivity|].
+  eexists. split; vm_compute; reflexivity.
+Qed.
+
+(* the same on a block step: i8; block Blk @-100 repeat 3 x 100 { register Inner @0 } *)
+Example C13_D3b_block_now_exact :
+  let d := {| d_config := ex_cfg (Some II8) None None;
+              d_objects := [OBlock None "Blk" (-100) (Some {| r_count := 3; r_stride := 100 |}) [ex_reg "Inner" 0 None]] |} in
+  accepted false 10 "Dev" d /\ internal_type_walk_only_at 10 d = Ok i8 /\
+  internal_type_at 10 d = Ok {| signed := true; bits := 16 |} /\
+  exists l, instances 10 (d_objects d) = Ok l /\
+    map (fun i => gen_addr true i8 i8 (i_path i)) l = [Ok (-100); Ok 0; Fail Overflow] /\
+    map (fun i => gen_addr true {| signed := true; bits := 16 |} i8 (i_path i)) l = [Ok (-100); Ok 0; Ok 100].
+Proof.
+  cbn zeta. split; [vm_compute; reflexivity|]. split; [vm_compute; reflexivity|]. split; [vm_compute; reflexivity|].
+  eexists. split; [vm_compute; reflexivity|]. split; vm_compute; reflexivity.
 Qed.
 
 (* more fuel never changes the internal type: whenever [internal_type_at] returns for two fuels the results agree (so
@@ -358,7 +417,11 @@ Print Assumptions C13_walk_exact.
 Print Assumptions C13_instances_are_points.
 Print Assumptions C13_accepted_all_fit.
 Print Assumptions C13_accepted_no_overflow.
-Print Assumptions C13_signed_product_refuted.
+Print Assumptions C13_steps_product_ok_holds.
+Print Assumptions C13_accepted_no_overflow_full.
+Print Assumptions C13_index_casts_exact.
+Print Assumptions C13_internal_type_covers_method_literals.
+Print Assumptions C13_historical_D3b_signed_product.
 Print Assumptions C13_internal_type_fuel_monotone.
 Print Assumptions C13_walk_contains_zero.
 Print Assumptions C13_internal_type_covers.
@@ -396,3 +459,12 @@ Theorem C13_address_type_bounds_from_source : forall i,
     integer_max i = ity_max {| signed := smax; bits := bmax |}.
 Proof. exact GenIntegers.integer_bounds_from_source. Qed.
 Print Assumptions C13_address_type_bounds_from_source.
+
+(* The ORDER of the passes, TRANSLATED from the two `run_passes` functions of generation/src/{mir,lir}/passes/mod.rs on every
+   build: address_types_specified and address_types_big_enough run LAST, after names_normalized (ref targets are resolved by name) and refs_validated. *)
+From DD Require GenPassOrder.
+Theorem C13_pass_order_from_source :
+  DDGen.PassOrder.mir_pass_order = GenPassOrder.expected_mir_pass_order /\
+  DDGen.PassOrder.lir_pass_order = GenPassOrder.expected_lir_pass_order.
+Proof. exact GenPassOrder.pass_order_as_modelled. Qed.
+Print Assumptions C13_pass_order_from_source.
